@@ -29,6 +29,8 @@ CONSTANTS Opcodes,    \* subset of {0, 4, 5}
           QuestionSel,\* subset of BOOLEAN: TRUE = a question may be added
           QMax,       \* questions per message (RFC 1035 allows QDCOUNT > 1)
           PayloadSel, \* advertised EDNS UDP payload sizes; 70000 = the one of the EDNS menu entry
+          XfrSel,     \* subset of BOOLEAN: TRUE = the answer section is a zone-transfer style sequence (SOA first, repeated
+                      \* owner/type in several SOA-delimited runs) and the message is parsed with xfr=True
           TsigSel,    \* subset of BOOLEAN: TRUE = the low-level script ends with write_header ; add_tsig
           ChildMax    \* record sets whose owner is a CHILD of the previous record set's owner (deep pointer chains)
 VARIABLE hist
@@ -85,6 +87,11 @@ NoName == <<>>
 RecU(sec, forms) ==
     {Rec(sec, n, "A", NoName, NoName, 1, c, t, f) : n \in Owners, c \in (IF "A" \in KindSel THEN {1, 2} ELSE {}), t \in TtlSel, f \in forms}
     \cup {Rec(sec, n, kd, tg, NoName, 1, 1, t, f) : n \in Owners, kd \in KindSel \cap {"NS", "RRSIG", "SRV"}, tg \in Targets, t \in TtlSel, f \in forms}
+    \* signatures covering a second type (legacy SIG, type 24, and RRSIG): several per owner, one per covered type
+    \cup {Rec(sec, n, kd, tg, NoName, k, 1, t, f) : n \in Owners, kd \in KindSel \cap {"SIG"}, k \in {1, 2}, tg \in Targets, t \in TtlSel, f \in forms}
+    \cup {Rec(sec, n, "RRSIG", tg, NoName, 2, 1, t, f) : n \in Owners, x \in KindSel \cap {"SIG"}, tg \in Targets, t \in TtlSel, f \in forms}
+    \* a type whose RDATA may be EMPTY (RDLENGTH 0 is not the same as an empty record set)
+    \cup {Rec(sec, n, "NULL", NoName, NoName, k, 1, t, f) : n \in Owners, x \in KindSel \cap {"NULL"}, k \in {0, 3}, t \in TtlSel, f \in forms}
     \cup {Rec(sec, UName(1), "SOA", tg, UName(4), 7, 1, t, f) : tg \in (IF "SOA" \in KindSel THEN Targets ELSE {}), t \in TtlSel, f \in forms}
     \cup {Rec(sec, n, "TXT", NoName, NoName, len, c, t, f) : n \in Owners, len \in (IF "TXT" \in KindSel THEN TxtLens ELSE {}), c \in TxtCounts, t \in TtlSel, f \in forms}
 BigU(sec) == {Rec(sec, UName(5), "BIG", NoName, NoName, len, 1, <<0, 300>>, "plain") : len \in BigLens}
@@ -100,14 +107,17 @@ Zc == IF Hdr.opcode = OpUpdate THEN Hdr.zcls ELSE ClsIN
 \* type and class (a record set that was rolled back may be followed by another one of the same owner)
 Fresh(r) == LET rs == MkRRset(r, RfcCmp, Zc) IN
     \A i \in 1..Len(st.xs) : ~(st.xs[i].sec = r.sec /\ NameEqCI(st.xs[i].name, rs.name) /\ st.xs[i].type = rs.type
-                                /\ st.xs[i].cls = rs.cls)
+                                /\ st.xs[i].cls = rs.cls
+                                \* signature record sets are distinguished by the type they cover as well
+                                /\ (rs.type \in {TyRRSIG, 24} /\ rs.rds # <<>> /\ st.xs[i].items # <<>>
+                                      => SubSeq(st.xs[i].items[1][2], 1, 2) = SubSeq(rs.rds[1][1][2], 1, 2)))
 
 GInit ==
     \E op \in Opcodes, bits \in BitSel, rc \in RcodeSel, e \in EdnsSel, org \in OriginSel,
-       id \in IdSel, pad \in PadSel, zc \in ZoneClsSel, mx \in MaxSel, oi \in OptIdx, pl \in PayloadSel, ts \in TsigSel :
-      /\ (rc > 15 => e # "off") /\ (pad > 0 => e # "off") /\ (op # OpUpdate => zc = ClsIN) /\ (oi > 0 => e # "off") /\ (pl <= 65535 => e # "off")
+       id \in IdSel, pad \in PadSel, zc \in ZoneClsSel, mx \in MaxSel, oi \in OptIdx, pl \in PayloadSel, ts \in TsigSel, xf \in XfrSel :
+      /\ (rc > 15 => e # "off") /\ (pad > 0 => e # "off") /\ (op # OpUpdate => zc = ClsIN) /\ (oi > 0 => e # "off") /\ (pl <= 65535 => e # "off") /\ (xf => op = OpQuery /\ ~org)
       /\ LET h == [op |-> "hdr", id |-> id, opcode |-> op, bits |-> bits, rcode |-> rc, origin |-> org,
-                   edns |-> WithPayload(WithOption(EdnsOf(e, rc), oi), pl), pad |-> pad, zcls |-> zc, max |-> mx, tsig |-> ts]
+                   edns |-> WithPayload(WithOption(EdnsOf(e, rc), oi), pl), pad |-> pad, zcls |-> zc, max |-> mx, tsig |-> ts, xfr |-> xf]
          IN hist = <<h>> /\ RInit(id, HdrFlags(h), mx)
 
 GQuestion ==
@@ -122,7 +132,8 @@ GRec ==
     /\ NRecs < MaxRecs /\ hist[Len(hist)].op # "end"
     /\ (Hdr.opcode = OpUpdate => Len(hist) > 1)          \* an update needs its zone first
     /\ \E sec \in SecSel : \E r \in RecU(sec, FormsFor(Hdr.opcode, sec)) \cup (IF Hdr.opcode = OpUpdate THEN {} ELSE BigU(sec)) :
-         /\ sec >= st.section /\ Fresh(r)
+         /\ sec >= st.section /\ (Fresh(r) \/ Hdr.xfr)
+         /\ (Hdr.xfr => sec = 1 /\ r.nrd = 1 /\ (NRecs = 0 => r.kind = "SOA"))   \* one RR per RRset, as in a transfer
          /\ (Hdr.origin => UName(4) \notin {r.name, r.n1, r.n2})   \* see notes/C03.md, O2
          /\ (Zc # ClsIN => r.kind \notin {"A", "SRV"})          \* class-specific RDATA layouts
          /\ AddRRset(sec, MkRRset(r, RfcCmp, Zc))
